@@ -74,9 +74,9 @@ def audit(theorems, imports):
     rc, out, err = sh(['lake', 'env', 'lean', f], cwd=LEAN, timeout=1800)
     res = {t: None for t in theorems}
     txt = out + err
-    for m in re.finditer(r"'([^']+)' depends on axioms: \[([^\]]*)\]", txt, re.S):
+    for m in re.finditer(r"'(\S+)' depends on axioms: \[([^\]]*)\]", txt, re.S):
         res[m.group(1)] = [a.strip() for a in m.group(2).replace('\n', ' ').split(',') if a.strip()]
-    for m in re.finditer(r"'([^']+)' does not depend on any axioms", txt):
+    for m in re.finditer(r"'(\S+)' does not depend on any axioms", txt):
         res[m.group(1)] = []
     return res
 
